@@ -284,17 +284,11 @@ func Families(b Bounds) []*Family {
 				}
 				sets = append(sets, set)
 			}
-			common.Strings(sigma, 3, func(s string) {
-				if j == 0 || !strings.HasPrefix(s, "a") { // a^j·s with s starting with a is a^(j+1)·s'
-					txt = append(txt, mkText(pre+s))
-				} else if len(s) == 3 {
-					txt = append(txt, mkText(pre+s))
-				}
-			})
+			common.Strings(sigma, 3, func(s string) { txt = append(txt, mkText(pre+s)) })
 		}
 		fs = append(fs, &Family{
 			Name: fmt.Sprintf("wide-%d", k),
-			Desc: fmt.Sprintf("alphabet %q: pattern sets a^j·Σ² (j = 0..10, %d patterns) minus every choice of <= %d of them, history insert-all; texts a^j·s for every s of length <= 3 (each once); keys: every pattern prefix family a^j, a^j·x", strings.Join(sigma, ""), k*k, b.WideRemoved),
+			Desc: fmt.Sprintf("alphabet %q: pattern sets a^j·Σ² (j = 0..10, %d patterns) minus every choice of <= %d of them (reaches the ring-queue growth of BuildFailureLinks), histories all/rebuild-last; texts a^j·s for every j = 0..10 and every s of length <= 3 (each distinct text once); 8 fixed keys", strings.Join(sigma, ""), k*k, b.WideRemoved),
 			Pats: pats, Sets: sets, Hists: []History{HAll, HRebuildLast},
 			Texts: dedupTexts(txt), Keys: []string{"", "a", "b", "aa", "ab", "aaa", "aab", "aaaa"}})
 	}
@@ -657,7 +651,7 @@ func (f *Family) Run(r *common.Run, famIdx int, global *Collector, tot *Totals, 
 	var ev, nt, tries int64
 	start := time.Now()
 	r.Parallel(n, func(i int) {
-		sh := &Shard{Col: NewCollector(), Counts: make([]int, 16), Cov: make([]bool, 256), Regs: make([]Region, 0, 16)}
+		sh := &Shard{Col: NewCollector(), Counts: make([]int, 64), Cov: make([]bool, 256), Regs: make([]Region, 0, 16)}
 		sh.Col.fam, sh.Col.chunk = famIdx, i
 		cols[i] = sh.Col
 		var nb int64
